@@ -31,6 +31,13 @@ def idx {α : Type} (l : List α) (i : Nat) : Res α :=
 def setIdx {α : Type} (l : List α) (i : Nat) (v : α) : Res (List α) :=
   if i < l.length then .ok (l.set i v) else .panic
 
+/-- `s.char_indices()` for strings over a one-byte alphabet: every character with its byte offset -/
+def charIndicesFrom {α : Type} (k : Nat) : List α → List (Nat × α)
+  | [] => []
+  | a :: t => (k, a) :: charIndicesFrom (k + 1) t
+
+def charIndices {α : Type} (l : List α) : List (Nat × α) := charIndicesFrom 0 l
+
 @[simp] theorem bind_ok {α β : Type} (a : α) (f : α → Res β) : (Res.ok a).bind f = f a := rfl
 @[simp] theorem bind_panic {α β : Type} (f : α → Res β) : (Res.panic : Res α).bind f = .panic := rfl
 @[simp] theorem bind_oof {α β : Type} (f : α → Res β) : (Res.oof : Res α).bind f = .oof := rfl
